@@ -78,7 +78,7 @@ def std_patch(*modnames, extra=None, sp=True, flt=True):
 class Obligation:
     __slots__ = (
         "case", "name", "kind", "claim", "lhs", "rhs", "pc", "path_assume", "assume", "path_id",
-        "choices", "slice", "timeout", "result", "note", "lu_log", "ctx", "margin", "tactic", "scale",
+        "choices", "slice", "timeout", "result", "note", "lu_log", "ctx", "margin", "tactic", "scale", "pairs",
     )
 
     def __init__(self, **kw):
@@ -143,7 +143,7 @@ class HSym(HBase):
         self.events = []
 
     # inputs -------------------------------------------------------------------------------
-    def _declare(self, name, lo=None, hi=None, pos=False, nonneg=False, lo_open=False, hi_open=False):
+    def _declare(self, name, lo=None, hi=None, pos=False, nonneg=False, lo_open=False, hi_open=False, jitter=False):
         if name in CTX.inputs:
             return CTX.inputs[name]
         v = z3.Real(name)
@@ -221,6 +221,19 @@ class HSym(HBase):
         for i, (l, r) in enumerate(zip(L, R)):
             self.prove_eq(f"{name}[{i}]", l, r, **kw)
 
+    def prove_conj_eq(self, name, pairs, **kw):
+        """One obligation for a conjunction of (complex) equalities."""
+        cl, kept = [], []
+        for l, r in pairs:
+            l, r = Sc.of(l), Sc.of(r)
+            e = z3.simplify(z3.And(l.re == r.re, l.im == r.im))
+            if not z3.is_true(e):
+                cl.append(e)
+                kept.append((l, r))
+        o = self._mk(name, "bool", z3.And(*cl) if cl else z3.BoolVal(True), **kw)
+        o.pairs = kept
+        return o
+
     def prove(self, name, cond, **kw):
         if isinstance(cond, SymBool):
             e = cond.e
@@ -277,11 +290,17 @@ class HConc(HBase):
         self.events = []
         self.tol = 1e-8
 
-    def _val(self, name, lo=None, hi=None, pos=False, nonneg=False, lo_open=False, hi_open=False):
+    def _val(self, name, lo=None, hi=None, pos=False, nonneg=False, lo_open=False, hi_open=False, jitter=False):
         if name in self.used:
             return self.used[name]
         if name in self.values and self.values[name] is not None:
             v = float(self.values[name])
+            if jitter:
+                # solver models have "nice" rational weights for which the singular pure-Neumann
+                # Laplacian is *exactly* singular in doubles (SuperLU then refuses to factor); real
+                # meshes never are, so break the tie by a 1e-13 relative perturbation
+                h = int.from_bytes(hashlib.sha256(name.encode()).digest()[:4], "little") / 2**32
+                v = v * (1.0 + 1e-13 * (2 * h - 1))
         else:
             a = lo if lo is not None else (0.25 if pos else 0.0 if nonneg else -2.0)
             b = hi if hi is not None else (a + 3.0 if (pos or nonneg or lo is not None) else 2.0)
@@ -338,6 +357,13 @@ class HConc(HBase):
             raise HarnessError(f"{name}: shape mismatch")
         for i, (l, r) in enumerate(zip(L, R)):
             self.prove_eq(f"{name}[{i}]", l, r, **kw)
+
+    def prove_conj_eq(self, name, pairs, **kw):
+        worst = 0.0
+        for l, r in pairs:
+            l, r = complex(l), complex(r)
+            worst = max(worst, abs(l - r) / max(1.0, abs(l), abs(r)))
+        self.results[name] = dict(ok=bool(worst <= self.tol), lhs=None, rhs=None, err=worst)
 
     def prove(self, name, cond, **kw):
         self.results[name] = dict(ok=bool(cond), lhs=None, rhs=None, err=None)
@@ -442,6 +468,8 @@ def explore_case(harness, case, seed, max_paths=2000, feasibility="linear", time
         H.obligations.append(Obligation(case=case.name, name=f"lemma:{lname}#{k}", kind="lemma", claim=lclaim, pc=lpc, path_assume=lpa,
                                         path_id=-1, choices={}, slice=False, timeout=H.default_timeout, lu_log=[]))
     run.obligations = H.obligations
+    if getattr(harness, "PHASE_AXIOMS", False):
+        CTX.assume.extend(C.phase_axioms())
     run.assume = list(CTX.assume)
     run.ranges = dict(H.ranges)
     run.decisions = CTX.ctl.decisions
@@ -534,10 +562,12 @@ def cone_slice(conjuncts, goal, cache):
 
 def obligation_query(o, cache, margin=None):
     neg = z3.Not(o.claim)
-    if margin is not None and o.kind == "eq":
+    if margin is not None and (o.kind == "eq" or o.pairs):
         m = C.to_real(margin)
-        d = [o.lhs.re - o.rhs.re, o.lhs.im - o.rhs.im]
-        neg = z3.Or(d[0] > m, d[0] < -m, d[1] > m, d[1] < -m)
+        ds = []
+        for (l, r) in (o.pairs if o.pairs else [(o.lhs, o.rhs)]):
+            ds += [l.re - r.re, l.im - r.im]
+        neg = z3.Or(*[z3.Or(d > m, d < -m) for d in ds])
     base = list(o.assume) + list(o.path_assume) + list(o.pc)
     if o.slice:
         kept, dropped = cone_slice(base, neg, cache)
@@ -595,7 +625,7 @@ def sample_valuation(run, rng):
 def path_matches(env, pc, path_assume):
     try:
         return all(env.eval(c) for c in pc) and all(env.eval(c) for c in path_assume)
-    except feval.Reject:
+    except (feval.Reject, KeyError):
         return False
 
 
@@ -649,8 +679,18 @@ def run_harness(harness, tier="quick", seed=0, replay=None, verbose=True):
     max_paths = getattr(harness, "MAX_PATHS", {}).get(tier, 4000)
     runs = []
     t0 = time.time()
+    case_problems = []
     for case in cases:
-        r = explore_case(harness, case, seed, max_paths=max_paths, feasibility=feas)
+        try:
+            r = explore_case(harness, case, seed, max_paths=max_paths, feasibility=feas,
+                             time_budget=getattr(harness, "CASE_TIME_BUDGET", {}).get(tier, 300))
+        except (HarnessError, C.Unsupported) as e:
+            # inconclusive for this case only: violations found in other cases are still reported
+            case_problems.append(f"case {case.name}: {type(e).__name__}: {e}")
+            log(f"[{pid}] case {case.name}: NOT EXPLORED ({type(e).__name__}: {e})")
+            if os.environ.get("SYMX_DEBUG"):
+                traceback.print_exc()
+            continue
         runs.append(r)
         log(f"[{pid}] case {case.name}: {len(r.paths)} paths, {len(r.obligations)} obligations, {r.decisions} decisions, {r.time:.1f}s")
     t_explore = time.time() - t0
@@ -723,7 +763,7 @@ def run_harness(harness, tier="quick", seed=0, replay=None, verbose=True):
             else:
                 inconclusive.append((r, Obligation(case=r.case.name, name=f"defined:path{obj[0]}", kind="defined"), res))
 
-    problems = []
+    problems = list(case_problems)
     if lemma_failed:
         problems.append(f"merge lemma not valid (engine staging unjustified): {[o.key for o in lemma_failed[:3]]}")
     if disagreements:
@@ -765,22 +805,27 @@ def run_harness(harness, tier="quick", seed=0, replay=None, verbose=True):
 
     # ---- replay of counter-examples on the unpatched code ------------------------------------------
     violations, known_hits, unreproduced = [], [], []
+    n_margin_retries = 0
     os.makedirs(os.path.join(VERIF, "replays"), exist_ok=True)
     for (r, o) in sat_obls:
         vals = _HUNT_VALS.pop(id(o), None)
         if vals is None:
             vals = model_to_valuation(o.result.model or {}, r)
         ok, info = replay_obligation(harness, r, o, vals, seed)
-        if not ok and o.kind == "eq":
+        if not ok and (o.kind == "eq" or o.pairs) and o.result.model is not None and n_margin_retries < 40:
             # the model may violate the claim only infinitesimally: ask again with a margin
-            q, _ = obligation_query(o, cache, margin=1e-3)
-            b2 = smt.Batch(pid + "-m")
-            b2.add(q, timeout_s=o.timeout)
-            res2 = b2.solve()[0]
-            b2.cleanup()
-            if res2.status == "sat":
-                vals = model_to_valuation(res2.model, r)
-                ok, info = replay_obligation(harness, r, o, vals, seed)
+            for margin in (1e-3, 1e-6):
+                n_margin_retries += 1
+                q, _ = obligation_query(o, cache, margin=margin)
+                b2 = smt.Batch(pid + "-m")
+                b2.add(q, timeout_s=o.timeout)
+                res2 = b2.solve()[0]
+                b2.cleanup()
+                if res2.status == "sat":
+                    vals = model_to_valuation(res2.model, r)
+                    ok, info = replay_obligation(harness, r, o, vals, seed)
+                    if ok:
+                        break
         if ok:
             rec = dict(property=pid, case=o.case, obligation=o.name, kind=o.kind, choices=o.choices, valuation=vals,
                        observed=info, found_by=o.result.by, note=o.note)
